@@ -52,9 +52,9 @@ def rec_fit(args):
     elif c.get('frame') == 'tall':
         shape = (151, 71); cy += 70.0; cx -= 10.0
     elif c.get('frame') == 'nearleft':    # the outer isophotes cross the left / bottom border (fewer than 30 % of their points outside)
-        cx -= 29.0
+        cx -= 32.0
     elif c.get('frame') == 'nearbottom':
-        cy -= 29.0
+        cy -= 32.0
     big = c.get('frame') == 'large'       # a large frame fitted out to sma 75 (model images of large ellipses)
     if big:
         shape = (201, 201); cx += 55.0; cy += 55.0
